@@ -2,7 +2,7 @@
    PARTIAL (see C01.v for the reason): decision rules + facts about how the
    recorded dependency set is maintained. *)
 From Coq Require Import ZArith List.
-From Redo Require Import Base.Bytes Build.Model Build.LocalProofs Build.FailProofs Build.Protect Build.CleanProofs Build.CleanDb Build.Settle Build.SettleJob Build.Maxrun Build.SettleForever.
+From Redo Require Import Base.Bytes Build.Model Build.LocalProofs Build.FailProofs Build.Protect Build.CleanProofs Build.CleanDb Build.Settle Build.SettleJob Build.Maxrun Build.SettleForever Build.SettleHistory.
 
 Theorem C02_never_built_runs : forall fuel runid cyc w c f r mx seen,
   existsb (Nat.eqb f) seen = false ->
@@ -333,3 +333,47 @@ Example C02_whole_build_example :
   (pre w_a, runs w_a, pre w_c, runs w_c, runs (fst (exec (CIfChange false (ex_T :: nil)) w_c)))
   = (true, Some (0%Z, 2%nat), true, Some (0%Z, 2%nat), Some (0%Z, 0%nat)).
 Proof. vm_compute. reflexivity. Qed.
+
+(* ---- ALONG WHOLE HISTORIES (Build/SettleHistory.v).  A world is GOOD when the job
+   invariant holds at the start of its next run and nothing is marked.  The empty
+   state directory is good (good_init); every redo-ifchange, WHATEVER ITS EXIT
+   STATUS, every query command, and every user step that leaves generated files
+   alone (writing a file redo has not generated -- sources, .do files, new files --
+   or removing any file) leads from a good world to a good world.  Hence: from an
+   empty state directory, along every history of such steps (the project being one
+   of plain scripts at each command), every redo-ifchange that exits 0 leaves its
+   targets settled with their whole recorded closure.  The premise is one boolean,
+   hist_ok_b, evaluated below on a history with two edits, a failing script that is
+   then repaired, a removed target, and queries. *)
+Theorem C02_settled_along_every_history : forall rk watched (L : list name),
+  (forall n, watched n = true -> reserved n = false) ->
+  (forall t, watched t = false -> reserved t = false -> In t L) ->
+  forall depth h, hist_ok_b rk watched L (init_world depth) h = true ->
+    settled_along (init_world depth) h /\
+    Forall (fun x => GOOD rk watched (fst x)) (run_history h (init_world depth)).
+Proof. exact history_from_scratch_b. Qed.
+Check C02_settled_along_every_history : forall rk watched (L : list name),
+  (forall n, watched n = true -> reserved n = false) ->
+  (forall t, watched t = false -> reserved t = false -> In t L) ->
+  forall depth h, hist_ok_b rk watched L (init_world depth) h = true ->
+    settled_along (init_world depth) h /\
+    Forall (fun x => GOOD rk watched (fst x)) (run_history h (init_world depth)).
+Print Assumptions C02_settled_along_every_history.
+
+Example C02_history_example :
+  let mk deps ifc p ex := {| s_deps := deps; s_ifcreate := ifc; s_always := false; s_stamp := false;
+                             s_out := OStdout; s_payload := p; s_cat := true; s_exit := ex; s_tol := false |} in
+  let b := CIfChange false (ex_T :: nil) in
+  let h := SWrite ex_s (1%N :: nil) :: SWriteDo (ex_T ++ b_do) (mk (ex_m :: ex_s :: nil) ((119 :: nil) :: nil)%N 10%N 0%Z)
+           :: SWriteDo (ex_m ++ b_do) (mk (ex_s :: nil) nil 20%N 0%Z)
+           :: SCmd b :: SCmd b :: SWrite ex_s (2%N :: nil) :: SCmd COod :: SCmd b
+           :: SWriteDo (ex_m ++ b_do) (mk (ex_s :: nil) nil 21%N 3%Z) :: SCmd b            (* m.do fails *)
+           :: SWriteDo (ex_m ++ b_do) (mk (ex_s :: nil) nil 22%N 0%Z) :: SCmd b            (* repaired *)
+           :: SRemove ex_m :: SCmd CTargets :: SCmd b :: SCmd b :: nil in
+  hist_ok_b ex_rk ex_watched ex_L (init_world 0) h = true
+  /\ map (fun x => match snd x with
+                   | Some (OutBuild evs rc) => Some (rc, length (filter (fun e => match e with EvRun _ _ _ _ => true | _ => false end) evs))
+                   | _ => None end) (run_history h (init_world 0))
+     = None :: None :: None :: Some (0%Z, 2%nat) :: Some (0%Z, 0%nat) :: None :: None :: Some (0%Z, 2%nat)
+       :: None :: Some (1%Z, 2%nat) :: None :: Some (0%Z, 2%nat) :: None :: None :: Some (0%Z, 2%nat) :: Some (0%Z, 0%nat) :: nil.
+Proof. vm_compute. split; reflexivity. Qed.
